@@ -141,6 +141,14 @@ def runRec (ev : Op → Int → Int → Option Int) (params : List Name) (b : Bo
     | some (.value v) => some v
     | some (.again vals') => runRec ev params b fuel vals'
 
+/-- `reads_other_parameter` (fix c57720b, `optimize_function_by_tailrec_rewrite_aux`): some argument
+of the tail call is a parameter that belongs to another position. -/
+def readsOther (params : List Name) (args : List Expr) : Bool :=
+  (List.range args.length).any fun i =>
+    match args[i]? with
+    | some (.var x) => (List.range params.length).any fun j => i != j && params[j]? == some x
+    | _ => false
+
 /-- The rewritten function as the backends run it (`seq = true`), or with all loop values read
 before any loop variable is written (`seq = false`, what the recursion means). -/
 def runLoop (ev : Op → Int → Int → Option Int) (seq : Bool) (params : List Name) (l : LBody) :
@@ -152,7 +160,10 @@ def runLoop (ev : Op → Int → Int → Option Int) (seq : Bool) (params : List
     | some (.brk v) => some v
     | some (.nextVals vs) => runLoop ev seq params l fuel vs
     | some (.next env args) =>
-      if seq then runLoop ev seq params l fuel (params.map (seqAssign env (params.zip args)))
+      -- fix c57720b: when an argument reads a parameter of another position, all new values are
+      -- first copied into fresh temporaries (`Cast`), i.e. read before any loop variable is written
+      if seq && !readsOther params args then
+        runLoop ev seq params l fuel (params.map (seqAssign env (params.zip args)))
       else runLoop ev seq params l fuel (args.map (Expr.eval env))
 
 /-- Position of a name in the parameter list. -/
@@ -173,6 +184,14 @@ def safeArgs (params : List Name) : LBody → Bool
   | .done args => noBackwardRef params args && args.length == params.length
   | .bin _ _ _ _ k => safeArgs params k
   | .sif _ _ _ k => safeArgs params k
+  | .merge _ _ _ => true
+
+/-- Well-typedness of the tail calls: every directly used loop-value list has one value per
+parameter (`debug_assert` of the MIR; calls are type checked). -/
+def arityOk (k : Nat) : LBody → Bool
+  | .done args => args.length == k
+  | .bin _ _ _ _ b => arityOk k b
+  | .sif _ _ _ b => arityOk k b
   | .merge _ _ _ => true
 
 /-! ## K4 — constant-parameter elimination decision -/
